@@ -478,6 +478,10 @@ func runHistory(t *testing.T, hi int, r *Rng, side *Sidecar, cases *CasesFile) {
 		{Bi(1_000_000_123), dec(Bi(999_999_000), 999_999_999_999_999_999)},
 		{Pow2(96), Bi(0)},
 		{Bi(1_000_000_000), Bi(0)},
+		// a legal genesis whose base fee is below the minimum gas price: the first block is priced by the minimum
+		{Bi(1_000_000_000), dec(Bi(5_000_000_000), 0)},
+		{Bi(0), dec(Bi(7), 500_000_000_000_000_000)},
+		{Bi(999), dec(Bi(1000), 999_999_999_999_999_999)},
 	}
 	in := inits[r.Intn(len(inits))]
 	if r.Chance(35) {
@@ -509,6 +513,7 @@ func runHistory(t *testing.T, hi int, r *Rng, side *Sidecar, cases *CasesFile) {
 
 	init := w.read()
 	require.Equal(t, mg0, init.Mg)
+	side.Count(fmt.Sprintf("initial:base-fee-below-trunc-min=%v", init.Base.Cmp(C09FloorMin(init.Min)) < 0))
 	nBlocks := 10 + r.Intn(7)
 	steps := []time.Duration{time.Minute, 10 * time.Minute, 10 * time.Minute, 16 * time.Minute, 31 * time.Minute}
 
